@@ -1,0 +1,21 @@
+//go:build verif
+
+package ttlv
+
+// Lemma functions for the gocv verifier: ordinary Go code over the real writer and reader, verified
+// modularly against their contracts (the callees' bodies are not looked at). Compiled only with -tags verif.
+
+//@ lemma lemmaRTInteger
+//@   requires 0 <= tag && tag < 1<<24 && hdOK(rest)
+//@   ensures err == nil && x == v && bytes_eq(out, rest)
+func lemmaRTInteger(tag int, v int32, rest []byte) (x int32, err error, out []byte) {
+	w := &ttlvWriter{}
+	w.Integer(tag, v)
+	w.buf = append(w.buf, rest...)
+	dec, err := newTTLVReader(w.buf)
+	if err != nil {
+		return 0, err, nil
+	}
+	x, err = dec.Integer(tag)
+	return x, err, dec.buf
+}
